@@ -1049,7 +1049,8 @@ impl<Writer: Write> Mp4Writer<Writer> {
     fn compute_interleave_schedule(&self) -> Vec<(u64, TrackKind, usize)> {
         let mut schedule: Vec<(u64, TrackKind, usize)> = Vec::new();
         for (idx, sample) in self.video_samples.iter().enumerate() {
-            schedule.push((sample.pts, TrackKind::Video, idx));
+            // Key video by decode time: sample tables are indexed in decode order.
+            schedule.push((sample.dts, TrackKind::Video, idx));
         }
         for (idx, sample) in self.audio_samples.iter().enumerate() {
             schedule.push((sample.pts, TrackKind::Audio, idx));
